@@ -517,6 +517,11 @@ def explore(prop, tier, seed, comp_names, t0, dfs=False, scale=1.0):
         if dfs and tier == "thorough" and os.environ.get("VERIF_DFS_ONLY") == "1":
             nd = nrand = 0    # self-test of the systematic search: no sampled schedules at all
         texts.append(run_client(exe, ["--directed", "--runs", str(nd), "--seed", str(seed)], ndirected * nd))
+        # scripts that need a FRESH PROCESS (static state of the library untouched before the run): one process per run
+        for fs in c.get("fresh_scripts", []):
+            for k in range(c.get("fresh_runs", 8) * (1 if tier == "quick" else 4)):
+                texts.append(run_client(exe, ["--script", fs, "--fresh", "--runs", "1", "--seed", str(seed * 100 + k)], 1,
+                                        timeout=60))
         # random scripts / schedules, split over processes
         nproc = max(1, min(NCPU, nrand // 100))
         per = (nrand + nproc - 1) // nproc
@@ -867,6 +872,8 @@ def do_replay(prop, path):
         print("VIOLATION property=%s replay=%s no-failing-input-found" % (prop, path))
         return 1
     args = ["--script", rp["script"], "--seed", str(rp.get("seed") or 1)]
+    if rp["script"] in c.get("fresh_scripts", []):
+        args.append("--fresh")      # found by a fresh-process run: the library's static state must be untouched
     if rp.get("decisions"):
         args += ["--replay", rp["decisions"]]
     text = run_client(exe, args + ["--runs", "1"], 1)
